@@ -173,15 +173,19 @@ func runCore(c *Ctx, id string) {
 			gangHistory(c, d)
 		case "preempt":
 			preemptHistory(c, d)
+		case "quota":
+			quotaHistory(c, d)
 		case "mixed":
-			// the mix used by the checks: general, gang-biased and preemption-biased histories
-			switch it % 5 {
+			// the mix used by the checks: general, gang-biased, preemption-biased and quota-biased histories
+			switch it % 6 {
 			case 0, 1:
 				coreHistory(c, d)
 			case 2, 3:
 				gangHistory(c, d)
-			default:
+			case 4:
 				preemptHistory(c, d)
+			default:
+				quotaHistory(c, d)
 			}
 		default:
 			coreHistory(c, d)
